@@ -10,10 +10,17 @@ definitionally the instance the model uses (last example).  A quote set is descr
 COMPLETENESS / REJECTION (`C09_complete`, `C09_disconnected_rejected`): the triangulation returns a
 result exactly when the quoted pairs CONNECT all n currencies — for n − 1 quotes that is exactly "the
 quotes form a tree"; a right-count quote set with a cycle leaves some currency unconnected and is
-rejected.  (The graph fact "n − 1 edges on n vertices: connected ⇔ acyclic" is standard and not
-restated; connectivity is what the theorems use.)
+rejected.
+
+NO HYPOTHESIS ON POTENTIALS (`C09_tree_arbitrage_free`; Proofs/TreePotential.lean, Proofs/FXTree.lean): `n − 1`
+edges that connect `n` vertices form a tree, and on a tree every assignment of group elements to the edges is
+a coboundary (union–find over the edge list: classes = n − merging edges; connectedness leaves one class, so
+every edge merged and fits the potential).  Hence, whenever the triangulation returns a result for `n − 1`
+non-zero quotes over `n` currencies, a non-vanishing potential `u` with `quote = u a / u b` EXISTS, and every
+one of the `n × n` rates is populated and equal to `u i / u j`.
 -/
 import RateslibModel.Proofs.FXComplete
+import RateslibModel.Proofs.FXTree
 import Mathlib.Tactic.IntervalCases
 import Mathlib.Tactic.Tauto
 namespace Rateslib
@@ -32,6 +39,19 @@ theorem C09_arbitrage_free (u : Nat → K) (hu : ∀ i, u i ≠ 0) (n : Nat) (pa
   intro i j hi hj
   have he := edges_full n a'.edges hfull i j hi hj
   exact ⟨he, hc i j he⟩
+
+/-- ARBITRAGE-FREE, NO POTENTIAL ASSUMED: whenever the triangulation returns a result for `n − 1` non-zero
+quotes over `n` currencies (indices in range), there is a non-vanishing `u` such that every quote is
+`u a / u b` and EVERY one of the `n × n` rates is populated and equals `u i / u j` — so each rate times its
+inverse is 1 and any cross is the product of the quotes along any path. -/
+theorem C09_tree_arbitrage_free (n fuel : Nat) (pairs : List (Nat × Nat × K)) (a' : FxArr K)
+    (hidx : ∀ p ∈ pairs, p.1 < n ∧ p.2.1 < n) (hlen : pairs.length + 1 = n)
+    (hnz : ∀ p ∈ pairs, p.2.2 ≠ 0)
+    (h : fill n fuel (initArr pairs 0) [] = some a') :
+    ∃ u : Nat → K, (∀ i, u i ≠ 0) ∧ (∀ p ∈ pairs, p.2.2 = u p.1 / u p.2.1) ∧
+      ∀ i j, i < n → j < n → a'.edges i j = true ∧ a'.fx i j = u i / u j := by
+  obtain ⟨u, hu, hp⟩ := potential_of_fill n fuel pairs a' hidx hlen hnz h
+  exact ⟨u, hu, hp, C09_arbitrage_free u hu n pairs hp fuel a' h⟩
 
 /-- Each rate times its inverse is 1, every currency against itself is 1, and any cross equals the
 product along any path of populated rates (by induction from the triangle law) — so the result does
